@@ -9,6 +9,9 @@
                                            -> same
      savedir <quote 0|1> <all 0|1> <n> (<relpath> <data>)*
                                            -> <hex of the bytes txtar-c prints>
+     savedirtree <quote> <all> <n> (<relpath> <data>)* <m> (<relpath of a directory>)*
+                                           -> <hex of format (savedir_tree ...)>: the same through the
+                                              rose-tree walk (empty directories included)
      entryname <dir argument> <relpath>    -> <hex: the archive name txtar-c gives the file>
      mode <umask decimal> D|F              -> <decimal permission bits of a created object>
      restore <archive bytes> <name> <stored>
@@ -47,6 +50,19 @@ let show_fs (fs : fsys) =
   String.concat "" (List.map (fun (s, n) ->
     " " ^ hex_of_string s ^ (match n with Dir -> " D -" | File d -> " F " ^ hex_of_bytes d)) items)
 let bool01 s = (s = "1")
+(* build the rose tree from (elements, Some data | None = directory) items *)
+let rec build_tree (items : (byte list list * byte list option) list) : (byte list * rnode) list =
+  let names = List.fold_left (fun acc (p, _) ->
+    match p with n :: _ when not (List.mem n acc) -> acc @ [n] | _ -> acc) [] items in
+  List.map (fun n ->
+    let subs = List.filter_map (fun (p, v) -> match p with
+      | h :: t when h = n -> Some (t, v) | _ -> None) items in
+    match List.find_opt (fun (t, v) -> t = [] && v <> None) subs with
+    | Some (_, Some d) -> (n, RFile d)
+    | _ -> (n, RDir (build_tree (List.filter (fun (t, _) -> t <> []) subs)))) names
+let rec take_dirs n l acc =
+  if n = 0 then List.rev acc else
+  match l with d :: r -> take_dirs (n - 1) r (bytes_of_hex d :: acc) | [] -> failwith "bad dirs"
 let () = serve (function
   | ["clean"; p] -> hex_of_bytes (clean (bytes_of_hex p))
   | ["dir"; p] -> hex_of_bytes (dir_of (bytes_of_hex p))
@@ -72,6 +88,12 @@ let () = serve (function
       let (files, _) = take_files (int_of_string n) r [] in
       let t = List.map (fun (p, d) -> (split_sep p, d)) files in
       hex_of_bytes (txtar_c { f_quote = bool01 q; f_all = bool01 a } t)
+  | "savedirtree" :: q :: a :: n :: r ->
+      let (files, r) = take_files (int_of_string n) r [] in
+      let dirs = (match r with m :: r -> take_dirs (int_of_string m) r [] | [] -> []) in
+      let items = List.map (fun (p, d) -> (split_sep p, Some d)) files
+                @ List.map (fun p -> (split_sep p, None)) dirs in
+      hex_of_bytes (format (savedir_tree { f_quote = bool01 q; f_all = bool01 a } (build_tree items)))
   | ["entryname"; d; p] -> hex_of_bytes (entry_name (clean (bytes_of_hex d)) (split_sep (bytes_of_hex p)))
   | ["mode"; u; k] ->
       string_of_int (int_of_n (created_mode (n_of_int (int_of_string u)) (if k = "D" then Dir else File [])))
